@@ -27,6 +27,7 @@ fn main() {
             let ctx = Ctx { prop: args[2].clone(), tier, seed, threads, scale };
             fw::init_known(&ctx.prop);
             encverif::guard::install_fault_handler(&ctx.prop);
+            encverif::guard::start_watchdog(90, 40usize << 30);
             let code = encverif::checks::run(&ctx);
             std::process::exit(code);
         }
